@@ -7,7 +7,6 @@
   readers for every byte string, every capacity and every type byte.
 -/
 import Verif.Lemmas.SkipBR
-import Verif.Lemmas.SkipTplB
 import Verif.Lemmas.ReaderSteady
 namespace Verif
 
